@@ -248,6 +248,11 @@ def r12_4(ctx):
     return r
 
 
+def _tsn_name(n):
+    n = n.lower()
+    return "tsn" in n and "retransmit" not in n and "count" not in n
+
+
 def serial_compare_violations(ctx, fn, r):
     """raw <,>,<=,>= on TSN/SSN-typed values (must use wrapping_sub / tsn_gt / ssn_gt)"""
     body = ctx.body(fn)
@@ -268,8 +273,8 @@ def serial_compare_violations(ctx, fn, r):
 
             def is_tsn(x):
                 return mir.has(x, lambda y: (y[0] == "call" and y[1].endswith("::load") and y[2] and (mir.field_path(y[2][0]) or "").split(".")[-1] in SRC)
-                               or (y[0] in ("var", "arg") and ("tsn" in y[1].lower()))
-                               or (y[0] == "field" and "tsn" in y[2].lower()))
+                               or (y[0] in ("var", "arg") and _tsn_name(y[1]))
+                               or (y[0] == "field" and _tsn_name(y[2])))
             def is_plain_len(x):
                 return mir.has(x, lambda y: y[0] == "call" and (y[1].endswith("::len") or y[1].endswith("::remaining")))
             if (is_tsn(a) or is_tsn(c)) and not is_plain_len(a) and not is_plain_len(c):
